@@ -198,4 +198,14 @@ theorem ContKeep.execCmd (w : World) (p : Pid) (c : Cmd) : ContKeep p w (execCmd
     simp only [Sim.execCmd]; keep
   | _ => simp only [Sim.execCmd] <;> keep
 
+
+theorem KeepP.setEvWaiters {w0 w : World} {p : Pid} (h : KeepP p w0 w) (x : List (Nat × List Pid)) :
+    KeepP p w0 { w with evWaiters := x } := h
+macro_rules | `(tactic| keep_step) => `(tactic| (guard_world_lit; with_reducible apply KeepP.setEvWaiters))
+
+/-- a resumed call that returns leaves the caller's recorded frame and status as they were -/
+theorem ContKeep.resumeFrame (w : World) (p : Pid) (f : Frame) (sig : Int) : ContKeep p w (resumeFrame w p f sig) := by
+  have h := KeepP.refl p w
+  cases f <;> simp only [Sim.resumeFrame] <;> keep
+
 end CimbaModel.Sim.S3
